@@ -33,7 +33,7 @@ fn s_powf(x: f64, y: f64) -> f64 { record2(20, x, y) }  fn s_log(x: f64, y: f64)
 fn s_atan2(x: f64, y: f64) -> f64 { record2(22, x, y) }  fn s_powi(x: f64, n: i32) -> f64 { record2(23, x, n as f64) }
 
 // ---- leaf ----------------------------------------------------------------------------------------------
-// @obligation owners=C09,C14,C20 fn=eval_number::ast::eval/Num
+// @obligation owners=C09,C14,C20 fn=eval_number::ast::eval/Num exact=1
 #[kani::proof]
 fn step_num() { let n = any_num();
     match ok(eval(Node::Num(n.clone()))) { Some(r) => match (&n, &r) {
@@ -42,14 +42,14 @@ fn step_num() { let n = any_num();
         _ => assert!(false, "the variant is kept") }, None => assert!(false, "never Err") } }
 
 // ---- + - * on two Integers: exact Integer when it fits, else the Float of the operands' doubles ---------
-// @obligation owners=C09,C15 fn=eval_number::ast::eval/Add(Integer,Integer)
+// @obligation owners=C09,C15 fn=eval_number::ast::eval/Add(Integer,Integer) exact=1
 #[kani::proof]
 fn step_add_ii() { let a: i64 = kani::any(); let b: i64 = kani::any();
     match ok(eval(Node::Add(int(a), int(b)))) { Some(r) => match a.checked_add(b) {
         Some(e) => assert!(matches!(r, Number::Integer(v) if v == e), "Integer(exact result) whenever it fits"),
         None => assert!(matches!(r, Number::Float(f) if same(f, (a as f64) + (b as f64))), "otherwise the Float of the operands' double values"),
     }, None => assert!(false, "never Err") } }
-// @obligation owners=C09,C15 fn=eval_number::ast::eval/Subtract(Integer,Integer)
+// @obligation owners=C09,C15 fn=eval_number::ast::eval/Subtract(Integer,Integer) exact=1
 #[kani::proof]
 fn step_sub_ii() { let a: i64 = kani::any(); let b: i64 = kani::any();
     match ok(eval(Node::Subtract(int(a), int(b)))) { Some(r) => match a.checked_sub(b) {
@@ -73,12 +73,12 @@ fn step_mul_ii_float_value() { let a: i64 = kani::any(); let b: i64 = kani::any(
     match ok(eval(Node::Multiply(int(a), int(b)))) { Some(r) => assert!(matches!(r, Number::Float(f) if same(f, (a as f64) * (b as f64))), "the Float of the operands' double values"), None => assert!(false, "never Err") } }
 
 // ---- + - * with a Float operand: IEEE operation on the operands' values ------------------------------------
-// @obligation owners=C09,C15 fn=eval_number::ast::eval/Add(Float,_)
+// @obligation owners=C09,C15 fn=eval_number::ast::eval/Add(Float,_) exact=1
 #[kani::proof]
 fn step_add_f() { let x = any_num(); let y = any_num();
     kani::assume(matches!(x, Number::Float(_)) || matches!(y, Number::Float(_)));
     match ok(eval(Node::Add(leaf(&x), leaf(&y)))) { Some(r) => assert!(has_value(&r, val(&x) + val(&y)), "IEEE operation on the operands' values"), None => assert!(false, "never Err") } }
-// @obligation owners=C09,C15 fn=eval_number::ast::eval/Subtract(Float,_)
+// @obligation owners=C09,C15 fn=eval_number::ast::eval/Subtract(Float,_) exact=1
 #[kani::proof]
 fn step_sub_f() { let x = any_num(); let y = any_num();
     kani::assume(matches!(x, Number::Float(_)) || matches!(y, Number::Float(_)));
@@ -148,21 +148,21 @@ fn step_mod_min_by_minus_one() {
     assert!(matches!(m, Some(Number::Integer(0))), "MIN % -1 is 0"); }
 
 // ---- unary minus, abs, sgn ----------------------------------------------------------------------------------------
-// @obligation owners=C09,C15 fn=eval_number::ast::eval/Negative
+// @obligation owners=C09,C15 fn=eval_number::ast::eval/Negative exact=1
 #[kani::proof]
 fn step_neg() { let x = any_num();
     match ok(eval(Node::Negative(leaf(&x)))) { Some(r) => match x {
         Number::Integer(a) => match a.checked_neg() { Some(e) => assert!(matches!(r, Number::Integer(v) if v == e)), None => assert!(matches!(r, Number::Float(f) if same(f, -(a as f64)))) },
         Number::Float(f) => assert!(matches!(r, Number::Float(g) if g.to_bits() == (f.to_bits() ^ (1u64 << 63))), "sign flip"),
     }, None => assert!(false, "never Err") } }
-// @obligation owners=C09,C10,C15 fn=eval_number::ast::eval/Abs
+// @obligation owners=C09,C10,C15 fn=eval_number::ast::eval/Abs exact=1
 #[kani::proof]
 fn step_abs() { let x = any_num();
     match ok(eval(Node::Abs(leaf(&x)))) { Some(r) => match x {
         Number::Integer(a) => match a.checked_abs() { Some(e) => assert!(matches!(r, Number::Integer(v) if v == e)), None => assert!(matches!(r, Number::Float(f) if same(f, (a as f64).abs()))) },
         Number::Float(f) => assert!(matches!(r, Number::Float(g) if g.to_bits() == (f.to_bits() & !(1u64 << 63)))),
     }, None => assert!(false, "never Err") } }
-// @obligation owners=C09,C10,C15 fn=eval_number::ast::eval/Sign
+// @obligation owners=C09,C10,C15 fn=eval_number::ast::eval/Sign exact=1
 #[kani::proof]
 fn step_sign() { let x = any_num();
     match ok(eval(Node::Sign(leaf(&x)))) { Some(r) => match x {
@@ -171,28 +171,28 @@ fn step_sign() { let x = any_num();
     }, None => assert!(false, "never Err") } }
 
 // ---- floor ceil round trunc: the correctly rounded value ------------------------------------------------------------
-// @obligation owners=C09,C10 fn=eval_number::ast::eval/Floor
+// @obligation owners=C09,C10 fn=eval_number::ast::eval/Floor exact=1
 #[kani::proof]
 fn step_floor() { let x = any_num();
     match ok(eval(Node::Floor(leaf(&x)))) { Some(r) => match x {
         Number::Integer(a) => assert!(matches!(r, Number::Integer(v) if v == a), "an Integer is its own rounding"),
         Number::Float(f) => assert!(is_from(&r, f.floor()), "the rounded value, as Integer when it is one"),
     }, None => assert!(false, "never Err") } }
-// @obligation owners=C09,C10 fn=eval_number::ast::eval/Ceil
+// @obligation owners=C09,C10 fn=eval_number::ast::eval/Ceil exact=1
 #[kani::proof]
 fn step_ceil() { let x = any_num();
     match ok(eval(Node::Ceil(leaf(&x)))) { Some(r) => match x {
         Number::Integer(a) => assert!(matches!(r, Number::Integer(v) if v == a), "an Integer is its own rounding"),
         Number::Float(f) => assert!(is_from(&r, f.ceil()), "the rounded value, as Integer when it is one"),
     }, None => assert!(false, "never Err") } }
-// @obligation owners=C09,C10 fn=eval_number::ast::eval/Round
+// @obligation owners=C09,C10 fn=eval_number::ast::eval/Round exact=1
 #[kani::proof]
 fn step_round() { let x = any_num();
     match ok(eval(Node::Round(leaf(&x)))) { Some(r) => match x {
         Number::Integer(a) => assert!(matches!(r, Number::Integer(v) if v == a), "an Integer is its own rounding"),
         Number::Float(f) => assert!(is_from(&r, f.round()), "the rounded value, as Integer when it is one"),
     }, None => assert!(false, "never Err") } }
-// @obligation owners=C09,C10 fn=eval_number::ast::eval/Truncate
+// @obligation owners=C09,C10 fn=eval_number::ast::eval/Truncate exact=1
 #[kani::proof]
 fn step_truncate() { let x = any_num();
     match ok(eval(Node::Truncate(leaf(&x)))) { Some(r) => match x {
@@ -247,103 +247,103 @@ fn step_factorial_float_total() { let f: f64 = kani::any();
     assert!(ok(eval(Node::Factorial(flt(f)))).is_some(), "never Err, no loop"); }
 
 // ---- functions that apply one libm primitive to the operand's value and canonicalise with Number::from --------------
-// @obligation owners=C09,C10 fn=eval_number::ast::eval/Sqrt
+// @obligation owners=C09,C10 fn=eval_number::ast::eval/Sqrt exact=1
 #[kani::proof]
 #[kani::stub(f64::sqrt, s_sqrt)]
 fn step_sqrt() { let x = any_num();
     match ok(eval(Node::Sqrt(leaf(&x)))) { Some(r) => assert!(once1(1, val(&x)) && is_from(&r, res()), "primitive applied once to the operand's value"), None => assert!(false, "never Err") } }
-// @obligation owners=C10 fn=eval_number::ast::eval/Sin
+// @obligation owners=C10 fn=eval_number::ast::eval/Sin exact=1
 #[kani::proof]
 #[kani::stub(f64::sin, s_sin)]
 fn step_sin() { let x = any_num();
     match ok(eval(Node::Sin(leaf(&x)))) { Some(r) => assert!(once1(2, val(&x)) && is_from(&r, res()), "primitive applied once to the operand's value"), None => assert!(false, "never Err") } }
-// @obligation owners=C10 fn=eval_number::ast::eval/Cos
+// @obligation owners=C10 fn=eval_number::ast::eval/Cos exact=1
 #[kani::proof]
 #[kani::stub(f64::cos, s_cos)]
 fn step_cos() { let x = any_num();
     match ok(eval(Node::Cos(leaf(&x)))) { Some(r) => assert!(once1(3, val(&x)) && is_from(&r, res()), "primitive applied once to the operand's value"), None => assert!(false, "never Err") } }
-// @obligation owners=C10 fn=eval_number::ast::eval/Tan
+// @obligation owners=C10 fn=eval_number::ast::eval/Tan exact=1
 #[kani::proof]
 #[kani::stub(f64::tan, s_tan)]
 fn step_tan() { let x = any_num();
     match ok(eval(Node::Tan(leaf(&x)))) { Some(r) => assert!(once1(4, val(&x)) && is_from(&r, res()), "primitive applied once to the operand's value"), None => assert!(false, "never Err") } }
-// @obligation owners=C10 fn=eval_number::ast::eval/Sinh
+// @obligation owners=C10 fn=eval_number::ast::eval/Sinh exact=1
 #[kani::proof]
 #[kani::stub(f64::sinh, s_sinh)]
 fn step_sinh() { let x = any_num();
     match ok(eval(Node::Sinh(leaf(&x)))) { Some(r) => assert!(once1(5, val(&x)) && is_from(&r, res()), "primitive applied once to the operand's value"), None => assert!(false, "never Err") } }
-// @obligation owners=C10 fn=eval_number::ast::eval/Cosh
+// @obligation owners=C10 fn=eval_number::ast::eval/Cosh exact=1
 #[kani::proof]
 #[kani::stub(f64::cosh, s_cosh)]
 fn step_cosh() { let x = any_num();
     match ok(eval(Node::Cosh(leaf(&x)))) { Some(r) => assert!(once1(6, val(&x)) && is_from(&r, res()), "primitive applied once to the operand's value"), None => assert!(false, "never Err") } }
-// @obligation owners=C10 fn=eval_number::ast::eval/Tanh
+// @obligation owners=C10 fn=eval_number::ast::eval/Tanh exact=1
 #[kani::proof]
 #[kani::stub(f64::tanh, s_tanh)]
 fn step_tanh() { let x = any_num();
     match ok(eval(Node::Tanh(leaf(&x)))) { Some(r) => assert!(once1(7, val(&x)) && is_from(&r, res()), "primitive applied once to the operand's value"), None => assert!(false, "never Err") } }
-// @obligation owners=C10 fn=eval_number::ast::eval/Asin
+// @obligation owners=C10 fn=eval_number::ast::eval/Asin exact=1
 #[kani::proof]
 #[kani::stub(f64::asin, s_asin)]
 fn step_asin() { let x = any_num();
     match ok(eval(Node::Asin(leaf(&x)))) { Some(r) => assert!(once1(8, val(&x)) && is_from(&r, res()), "primitive applied once to the operand's value"), None => assert!(false, "never Err") } }
-// @obligation owners=C10 fn=eval_number::ast::eval/Acos
+// @obligation owners=C10 fn=eval_number::ast::eval/Acos exact=1
 #[kani::proof]
 #[kani::stub(f64::acos, s_acos)]
 fn step_acos() { let x = any_num();
     match ok(eval(Node::Acos(leaf(&x)))) { Some(r) => assert!(once1(9, val(&x)) && is_from(&r, res()), "primitive applied once to the operand's value"), None => assert!(false, "never Err") } }
-// @obligation owners=C10 fn=eval_number::ast::eval/Atan
+// @obligation owners=C10 fn=eval_number::ast::eval/Atan exact=1
 #[kani::proof]
 #[kani::stub(f64::atan, s_atan)]
 fn step_atan() { let x = any_num();
     match ok(eval(Node::Atan(leaf(&x)))) { Some(r) => assert!(once1(10, val(&x)) && is_from(&r, res()), "primitive applied once to the operand's value"), None => assert!(false, "never Err") } }
-// @obligation owners=C10,C13 fn=eval_number::ast::eval/Arsinh
+// @obligation owners=C10,C13 fn=eval_number::ast::eval/Arsinh exact=1
 #[kani::proof]
 #[kani::stub(f64::asinh, s_asinh)]
 fn step_arsinh() { let x = any_num();
     match ok(eval(Node::Arsinh(leaf(&x)))) { Some(r) => assert!(once1(11, val(&x)) && is_from(&r, res()), "primitive applied once to the operand's value"), None => assert!(false, "never Err") } }
-// @obligation owners=C10,C13 fn=eval_number::ast::eval/Arcosh
+// @obligation owners=C10,C13 fn=eval_number::ast::eval/Arcosh exact=1
 #[kani::proof]
 #[kani::stub(f64::acosh, s_acosh)]
 fn step_arcosh() { let x = any_num();
     match ok(eval(Node::Arcosh(leaf(&x)))) { Some(r) => assert!(once1(12, val(&x)) && is_from(&r, res()), "primitive applied once to the operand's value"), None => assert!(false, "never Err") } }
-// @obligation owners=C10,C13 fn=eval_number::ast::eval/Artanh
+// @obligation owners=C10,C13 fn=eval_number::ast::eval/Artanh exact=1
 #[kani::proof]
 #[kani::stub(f64::atanh, s_atanh)]
 fn step_artanh() { let x = any_num();
     match ok(eval(Node::Artanh(leaf(&x)))) { Some(r) => assert!(once1(13, val(&x)) && is_from(&r, res()), "primitive applied once to the operand's value"), None => assert!(false, "never Err") } }
-// @obligation owners=C10 fn=eval_number::ast::eval/Ln
+// @obligation owners=C10 fn=eval_number::ast::eval/Ln exact=1
 #[kani::proof]
 #[kani::stub(f64::ln, s_ln)]
 fn step_ln() { let x = any_num();
     match ok(eval(Node::Ln(leaf(&x)))) { Some(r) => assert!(once1(14, val(&x)) && is_from(&r, res()), "primitive applied once to the operand's value"), None => assert!(false, "never Err") } }
-// @obligation owners=C10 fn=eval_number::ast::eval/Exp
+// @obligation owners=C10 fn=eval_number::ast::eval/Exp exact=1
 #[kani::proof]
 #[kani::stub(f64::exp, s_exp)]
 fn step_exp() { let x = any_num();
     match ok(eval(Node::Exp(leaf(&x)))) { Some(r) => assert!(once1(15, val(&x)) && is_from(&r, res()), "primitive applied once to the operand's value"), None => assert!(false, "never Err") } }
-// @obligation owners=C10 fn=eval_number::ast::eval/Exp2
+// @obligation owners=C10 fn=eval_number::ast::eval/Exp2 exact=1
 #[kani::proof]
 #[kani::stub(f64::exp2, s_exp2)]
 fn step_exp2() { let x = any_num();
     match ok(eval(Node::Exp2(leaf(&x)))) { Some(r) => assert!(once1(16, val(&x)) && is_from(&r, res()), "primitive applied once to the operand's value"), None => assert!(false, "never Err") } }
-// @obligation owners=C10 fn=eval_number::ast::eval/Lb
+// @obligation owners=C10 fn=eval_number::ast::eval/Lb exact=1
 #[kani::proof]
 #[kani::stub(f64::log, s_log)]
 #[kani::stub(f64::log2, s_log2)]
 fn step_lb() { let x = any_num();
     match ok(eval(Node::Lb(leaf(&x)))) { Some(r) => assert!((once2(21, val(&x), 2.0) || once1(17, val(&x))) && is_from(&r, res()), "lb(x) = log(x, 2) or log2(x)"), None => assert!(false, "never Err") } }
-// @obligation owners=C10 fn=eval_number::ast::eval/Log
+// @obligation owners=C10 fn=eval_number::ast::eval/Log exact=1
 #[kani::proof]
 #[kani::stub(f64::log, s_log)]
 fn step_log() { let x = any_num(); let b = any_num();
     match ok(eval(Node::Log(leaf(&x), leaf(&b)))) { Some(r) => assert!(once2(21, val(&x), val(&b)) && is_from(&r, res()), "log(x, b): argument first, base second"), None => assert!(false, "never Err") } }
-// @obligation owners=C10 fn=eval_number::ast::eval/Atan2
+// @obligation owners=C10 fn=eval_number::ast::eval/Atan2 exact=1
 #[kani::proof]
 #[kani::stub(f64::atan2, s_atan2)]
 fn step_atan2() { let y = any_num(); let x = any_num();
     match ok(eval(Node::Atan2(leaf(&y), leaf(&x)))) { Some(r) => assert!(once2(22, val(&y), val(&x)) && is_from(&r, res()), "atan2(y, x)"), None => assert!(false, "never Err") } }
-// @obligation owners=C10 fn=eval_number::ast::eval/Root
+// @obligation owners=C10 fn=eval_number::ast::eval/Root exact=1
 #[kani::proof]
 #[kani::stub(f64::powf, s_powf)]
 fn step_root() { let n = any_num(); let x = any_num();
